@@ -36,6 +36,7 @@ type c14Case struct {
 	Files []c14File         `json:"files"`
 	Vars  map[string]string `json:"vars"` // string bindings used by variable-style arguments
 	N     int               `json:"n"`
+	Late  bool              `json:"late,omitempty"` // ParseTemplateAndCache registrations happen after the top template was parsed
 }
 
 func (c *c14Case) file(name string) *c14File {
@@ -152,10 +153,13 @@ var c14Graph = hx.Define("c14.graph", func(c *c14Case, s *hx.Sub) *hx.Violation 
 				return hx.V("harness-error", "write: %v", err)
 			}
 		}
-		if f.InCache {
+		if f.InCache && !c.Late {
 			if _, perr := eng.ParseTemplateAndCache([]byte(c14Source(f.Cache, vars)), filepath.Join(dir, f.Name), 1); perr != nil {
 				return hx.V("harness-error", "cached source does not parse: %v", perr)
 			}
+		}
+		if f.InCache && c.Late {
+			_ = c14Source(f.Cache, vars) // collect the variable bindings the cached spelling needs
 		}
 	}
 	top := c14Source(c.Top, vars)
@@ -167,7 +171,29 @@ var c14Graph = hx.Define("c14.graph", func(c *c14Case, s *hx.Sub) *hx.Violation 
 		return b
 	}
 	topPath := filepath.Join(dir, "top.html")
-	got := hx.RenderAt(eng, top, topPath, 1, binds())
+	var got hx.Outcome
+	if c.Late {
+		// the includer is parsed first; sources are registered afterwards and must still be found at render time
+		got.Panic = hx.Guard(func() {
+			tpl, perr := eng.ParseTemplateLocation([]byte(top), topPath, 1)
+			if perr != nil {
+				got.Err, got.ParseErr = perr, true
+				return
+			}
+			for _, f := range c.Files {
+				if f.InCache {
+					if _, perr := eng.ParseTemplateAndCache([]byte(c14Source(f.Cache, vars)), filepath.Join(dir, f.Name), 1); perr != nil {
+						got.Err = perr
+						return
+					}
+				}
+			}
+			out, rerr := tpl.RenderString(binds())
+			got.Out, got.Err = out, rerr
+		})
+	} else {
+		got = hx.RenderAt(eng, top, topPath, 1, binds())
+	}
 	if got.Panic != nil {
 		return hx.V("panic@"+got.Panic.Site, "%q: %v", top, got.Panic)
 	}
@@ -280,8 +306,11 @@ func TestC14(t *testing.T) {
 		return c14Piece{Text: "<" + tag + ":" + txt + ">"}
 	}
 	col.Rapid(g.Sub, env.PerShard(env.Pick(8000, 100000)), func(t *rapid.T) {
-		c := &c14Case{N: rapid.IntRange(0, 2).Draw(t, "n"), Vars: map[string]string{}}
-		leaves := []string{"leaf.html", "d1/leaf.html", "d1/d2/leaf.html", "d1/other.html", "x-y.txt"}
+		c := &c14Case{N: rapid.IntRange(0, 2).Draw(t, "n"), Vars: map[string]string{}, Late: rapid.IntRange(0, 2).Draw(t, "late") == 0}
+		leaves := []string{"leaf.html", "d1/leaf.html", "d1/d2/leaf.html", "x-y.txt"}
+		// files in sub-directories that include further: every relative name is resolved against the directory of
+		// the path the *rendered template* was parsed with, i.e. the top template's directory, at every depth
+		mids := []string{"d1/other.html", "d1/d2/mid.html"}
 		chain := []string{"a.html", "b.html", "c.html", "d.html"}
 		style := func() int { return rapid.IntRange(0, 5).Draw(t, "style") }
 		mk := func(name string, next string, variant string) []c14Piece {
@@ -289,9 +318,10 @@ func TestC14(t *testing.T) {
 			if next != "" && next != "-" && rapid.IntRange(0, 3).Draw(t, "chain") > 0 {
 				ps = append(ps, c14Piece{Target: next, Style: style()})
 			}
-			// only the chain files (which live in the top template's directory) include further:
-			// the graph stays acyclic, and no include is issued from a sub-directory, where the
-			// statement could be read either way about what relative paths are relative to
+			if next != "" && !strings.Contains(name, "/") && rapid.IntRange(0, 3).Draw(t, "midinc") == 0 {
+				ps = append(ps, c14Piece{Target: rapid.SampledFrom(mids).Draw(t, "mid"), Style: style()})
+			}
+			// chain files and the mid files include leaves; leaves include nothing: the graph stays acyclic
 			if next != "" && rapid.Bool().Draw(t, "leafinc") {
 				ps = append(ps, c14Piece{Target: rapid.SampledFrom(leaves).Draw(t, "leaf"), Style: style()})
 			}
@@ -328,12 +358,15 @@ func TestC14(t *testing.T) {
 		for _, name := range leaves {
 			addFile(name, "")
 		}
+		for _, name := range mids {
+			addFile(name, "-")
+		}
 		sort.Slice(c.Files, func(i, j int) bool { return c.Files[i].Name < c.Files[j].Name })
 		c.Top = []c14Piece{genText(t, "top")}
 		for i, n := 0, rapid.IntRange(1, 3).Draw(t, "topincs"); i < n; i++ {
 			target := "a.html"
 			if rapid.Bool().Draw(t, "topleaf") {
-				target = rapid.SampledFrom(append(leaves, chain...)).Draw(t, "toptarget")
+				target = rapid.SampledFrom(append(append(append([]string{}, leaves...), mids...), chain...)).Draw(t, "toptarget")
 			}
 			c.Top = append(c.Top, c14Piece{Target: target, Style: style()}, genText(t, "top"))
 		}
